@@ -84,6 +84,18 @@ def build():
     u.raw("#[verifier::external_body]\n", "glue")
     u.emit(pr)
 
+    # helper of the parser that `iter` / `next` might call: signature only (R9), contract proved in u5
+    cl = mp.fn("consume_leading_newlines")
+    cl.ret("ret")
+    cl.contract("    ensures ret@ == skip_nl(bytes@),")
+    cl.drop_body("consume_leading_newlines is verified in unit u5; here only its signature and contract are used")
+    u.raw("""pub open spec fn spec_is_newline(b: u8) -> bool { b == 13u8 || b == 10u8 }
+pub open spec fn skip_nl(b: Seq<u8>) -> Seq<u8>
+    decreases b.len()
+{ if b.len() > 0 && spec_is_newline(b[0]) { skip_nl(b.subrange(1, b.len() as int)) } else { b } }
+#[verifier::external_body]
+""", "glue")
+    u.emit(cl)
     u.raw("""impl<'s> vstd::std_specs::iter::IteratorSpecImpl for ProguardRecordIter<'s> {
     open spec fn obeys_prophetic_iter_laws(&self) -> bool { true }
     open spec fn remaining(&self) -> Seq<Result<ProguardRecord<'s>, ParseError<'s>>> { records(self.slice@) }
